@@ -28,7 +28,7 @@ from ..tlc import run_tlc, parse_fails
 from ..common import dumps, MachineryError
 from .. import c18_util as U
 
-HCFIX = '0'          # layer-C flag: '0' mirrors the current tree (raw halfcomplex flag decides the range shape)
+HCFIX = '1'          # layer-C flag: '0' mirrors the current tree (raw halfcomplex flag decides the range shape)
 STRIDES = [0.5, 1.0, 0.25, 2.0, 0.75, 1.5]
 OTHER_MODES = ['constant', 'periodic', 'symmetric', 'order0', 'order1', 'reflect', 'antireflect', 'antisymmetric']
 ALL_MODES = OTHER_MODES + ['pywt_periodic']
